@@ -357,6 +357,13 @@ def r2_6(ctx, rc):
         raise AnalysisError('only %d FS primitives in FileBackups' % n)
 
 
+def r2_6b(ctx, rc):
+    """Every backup gets its own slot: the counter that names backup files
+    is read and incremented in one critical section (R9.7)."""
+    from .c09 import r9_7
+    r9_7(ctx, rc)
+
+
 def r2_7(ctx, rc):
     """Order inside rollback: remove new files and directories, re-create
     the old directories, restore the backups - restoration is last."""
@@ -692,6 +699,7 @@ RULES = [
     ('R2.4', 'backup (or absence) precedes overwrite', r2_4),
     ('R2.5', 'the build runs inside the with block owning the backups', r2_5),
     ('R2.6', 'backups are moved, never copied', r2_6),
+    ('R2.6b', 'every backup gets its own slot', r2_6b),
     ('R2.7', 'rollback order: remove, re-create, restore last', r2_7),
     ('R2.8', 'rollback undo sets are complete', r2_8),
     ('R2.9', 'a failed cache write is compensated', r2_9),
